@@ -613,6 +613,8 @@ func genTimed(tier string, seed int64, only string) []*Case {
 		add("Delay", "d", ds, "gaps", "0,1000,1000", "term", "C", "slow", "-", "cut", "out:"+itoa(d+500))
 		add("DelayEach", "d", ds, "gaps", "0,0,0", "term", "C", "slow", "-", "cut", "-")
 		add("DelayEach", "d", ds, "gaps", "0,0,0", "term", "E", "slow", "-", "cut", "in:0")
+		add("DelayEach", "d", ds, "gaps", "0,0,0,0", "term", "C", "slow", "-", "cut", "cancel:"+itoa(d+d/2))
+		add("DelayEach", "d", ds, "gaps", itoa(d/2)+",0,"+itoa(d/2), "term", "-", "slow", "-", "cut", "cancel:"+itoa(d/4))
 		// Timeout: bursts with a slow consumer (re-arming before forwarding would fire inside the delivery),
 		// a gap just above / just below the duration, terminal right away
 		add("Timeout", "d", ds, "gaps", "0,0,0,0", "term", "-", "slow", "1:"+itoa(d+d/2), "cut", "-")
@@ -661,8 +663,10 @@ func genTimed(tier string, seed int64, only string) []*Case {
 			return "out:" + itoa(r.Intn(span+d+1))
 		case 2:
 			return "in:" + itoa(r.Intn(nDel+1))
-		case 3:
-			if timedWatchesCtx[op] {
+		case 3, 4:
+			// DelayEach does not watch the context, but its values carry it: cancelling while values are still
+			// coming must not make it deliver a value any sooner (the source of the harness keeps emitting)
+			if timedWatchesCtx[op] || op == "DelayEach" {
 				return "cancel:" + itoa(r.Intn(span+d+1))
 			}
 		}
